@@ -65,6 +65,9 @@ func NewServe() *cobra.Command {
 	cmd.Flags().Int(numscriptCacheMaxCountFlag, 1024, "Numscript cache max count")
 	cmd.Flags().Bool(readOnlyFlag, false, "Read only mode")
 	cmd.Flags().Bool(autoUpgradeFlag, false, "Automatically upgrade all schemas")
+	if err := viper.BindPFlags(cmd.Flags()); err != nil {
+		panic(err)
+	}
 	return cmd
 }
 
